@@ -63,6 +63,8 @@ fn gen_program(c: &mut Chooser) -> String {
     // 4.. : a parameter whose only use is a metadata key, a map key in a datum, a list item in a datum, an input's
     // redeemer, a mint amount, a burn amount, the collateral threshold, a withdrawal amount, a second input's ref
     let lone = c.choose(13);
+    // the input block's name in each spelling (the name under which its UTxOs are asked for and supplied)
+    let src = spell("source", c.choose(5));
     let mut s = String::new();
     s.push_str(&format!("env {{\n    {e1}: Int,\n    {e2}: Bytes,\n}}\n"));
     s.push_str(&format!("party {p1};\nparty {p2};\n"));
@@ -103,7 +105,7 @@ fn gen_program(c: &mut Chooser) -> String {
         _ => {}
     }
     let redeemer = if lone == 7 { "        redeemer: Action,\n" } else { "" };
-    s.push_str(&format!("    input source {{\n        from: {p1},\n        min_amount: Ada({a1}),\n{redeemer}    }}\n"));
+    s.push_str(&format!("    input {src} {{\n        from: {p1},\n        min_amount: Ada({a1}),\n{redeemer}    }}\n"));
     if with_policy {
         s.push_str("    mint {\n        amount: AnyAsset(Minting, \"T\", 1),\n        redeemer: (),\n    }\n");
     }
@@ -113,7 +115,7 @@ fn gen_program(c: &mut Chooser) -> String {
         _ => "",
     };
     s.push_str(&format!("    output {{\n        to: {p2},\n        amount: Ada({a1}),\n{datum}    }}\n"));
-    s.push_str(&format!("    output {{\n        to: {p1},\n        amount: source - Ada({a1}) - fees,\n    }}\n"));
+    s.push_str(&format!("    output {{\n        to: {p1},\n        amount: {src} - Ada({a1}) - fees,\n    }}\n"));
     let mut meta = vec![format!("        1: {a2},")];
     if lone == 4 {
         meta.push("        Label: \"labelled\",".to_string());
